@@ -1,29 +1,58 @@
 (** Evaluator glue for C04: replays an operation history on the model and
     compares every per-step observation with what client.Storage did. *)
+From Coq Require Export ZArith.
 From AGH Require Import Base.Run.
-From AGH Require Export Model.ClientIndex.
+From AGH Require Export Model.ClientIndex Model.ClientIDCache.
+From AGH Require Model.Schedule.
 Local Open Scope N_scope.
 
 Definition mkc := Build_client.
 Definition mks := Build_settings.
+Definition mkb := Build_blocked.
+(** day ranges are printed in minutes from local midnight *)
+Definition mkr (s e : Z) : Schedule.day_range :=
+  {| Schedule.dr_start := (s * Schedule.ns_min)%Z; Schedule.dr_end := (e * Schedule.ns_min)%Z |}.
+(** an observed BlockedServices value: only its ids are compared *)
+Definition ob (ids : list bytes) : blocked := mkb ids [] 0.
 
 Inductive hstep :=
   | HOp (o : op)
-  | HDhcp (tbl : list (addr * bytes)).       (* the DHCP stub's table from now on *)
+  | HDhcp (tbl : list (addr * bytes))        (* the DHCP stub's table from now on *)
+  | HGlobal (gb : blocked).                  (* the filter's global BlockedServices from now on *)
 
 (** error class, Find per spelling (uid), FindByName per name (uid, IDsLen),
     RangeByName names, ApplyClientFiltering per (ClientID, address) pair
     (None: the call panicked). *)
 Definition obs := (N * list (option N) * list (option (N * N)) * list bytes * list (option settings))%type.
 
+(** ApplyAdditionalFiltering per (ClientID, address) pair: the instant (ns)
+    both schedule tests saw, the offset (s) of every zone of the history's zone
+    table at that instant, and the resulting settings per pair (None: panic). *)
+Definition aobs := (Z * list Z * list (option settings))%type.
+
+(** What the storage / filter is configured with: allowed tags, the answers
+    of upstream.AddressToUpstream for every token of the history, the service
+    ids with rules, the settings ApplyAdditionalFiltering starts from. *)
+Record henv := {
+  he_tags : list bytes;
+  he_addr : list (bytes * bool);
+  he_known : list bytes;
+  he_g2 : settings
+}.
+Definition mkenv := Build_henv.
+
 Inductive case :=
   | CHist (finds : list (bytes * option addr * option bytes)) (names : list bytes)
-          (acfs : list (bytes * addr)) (g : settings) (steps : list (hstep * obs)).
+          (acfs : list (bytes * addr)) (g : settings) (env : henv) (gb0 : blocked)
+          (steps : list (hstep * obs * aobs))
+  (* interleaved HandleBefore / processInitial events on the real Server with
+     what processInitial put into dctx.clientID *)
+  | CHand (evs : list (ev * option bytes)).
 
 Definition err_code (e : err) : N :=
   match e with
   | EOk => 0 | EValidate => 1 | EUid => 2 | EName => 3 | ECid => 4 | EIP => 5
-  | ESubnet => 6 | EMac => 7 | ENotFound => 8
+  | ESubnet => 6 | EMac => 7 | ENotFound => 8 | EUpstream => 9 | ETag => 10 | EPanic => 11
   end.
 
 Definition eqb_on (o1 o2 : option N) := eqb_option N.eqb o1 o2.
@@ -32,7 +61,8 @@ Definition eqb_settings (a b : settings) : bool :=
   eqb_bytes (s_client_name a) (s_client_name b) && Bool.eqb (s_filtering a) (s_filtering b) &&
   Bool.eqb (s_safesearch a) (s_safesearch b) && Bool.eqb (s_safebrowsing a) (s_safebrowsing b) &&
   Bool.eqb (s_parental a) (s_parental b) &&
-  eqb_option (eqb_list eqb_bytes) (s_blocked a) (s_blocked b).
+  eqb_option (fun x y => eqb_list eqb_bytes (b_ids x) (b_ids y)) (s_blocked a) (s_blocked b) &&
+  eqb_list eqb_bytes (s_tags a) (s_tags b) && eqb_list eqb_bytes (s_services a) (s_services b).
 
 Definition dhcp_of (tbl : list (addr * bytes)) : addr -> option bytes := fun a => zget a tbl.
 
@@ -55,42 +85,72 @@ Definition eqb_obs (a b : obs) : bool :=
       eqb_list eqb_bytes r1 r2 && eqb_list (eqb_option eqb_settings) s1 s2
   end.
 
-Definition hstep_run (ix : index) (tbl : list (addr * bytes)) (h : hstep) :=
+Definition cfg_of (env : henv) : config :=
+  {| cfg_tags := he_tags env;
+     cfg_addr_ok := fun u => match bget u (he_addr env) with Some b => b | None => false end |}.
+
+Definition model_aobs acfs (env : henv) (ix : index) tbl (gb : blocked) (t : Z) (offs : list Z) :=
+  map (fun q => apply_additional_filtering (fun z _ => nth (N.to_nat z) offs 0%Z) (he_known env)
+                  ix (dhcp_of tbl) gb t (fst q) (snd q) (he_g2 env)) acfs.
+
+Definition hstep_run (cfg : config) (ix : index) (tbl : list (addr * bytes)) (gb : blocked) (h : hstep) :=
   match h with
-  | HOp o => let r := step ix o in (fst r, tbl, snd r)
-  | HDhcp t => (ix, t, EOk)
+  | HOp o => let r := step cfg ix o in (fst r, tbl, gb, snd r)
+  | HDhcp t => (ix, t, gb, EOk)
+  | HGlobal b => (ix, tbl, b, EOk)
   end.
 
-Fixpoint replay finds names acfs g (ix : index) tbl (steps : list (hstep * obs)) : bool :=
+Fixpoint replay finds names acfs g env (ix : index) tbl gb (steps : list (hstep * obs * aobs)) : bool :=
   match steps with
   | [] => true
-  | (h, o) :: rest =>
-      match hstep_run ix tbl h with
-      | (ix', tbl', e) =>
+  | (h, o, (t, offs, ao)) :: rest =>
+      match hstep_run (cfg_of env) ix tbl gb h with
+      | (ix', tbl', gb', e) =>
           eqb_obs (model_obs finds names acfs g ix' tbl' e) o &&
-          replay finds names acfs g ix' tbl' rest
+          eqb_list (eqb_option eqb_settings) (model_aobs acfs env ix' tbl' gb' t offs) ao &&
+          replay finds names acfs g env ix' tbl' gb' rest
       end
+  end.
+
+(** The hand-over events on the server's cache configuration. *)
+Fixpoint replay_ev (c : cache) (evs : list (ev * option bytes)) : bool :=
+  match evs with
+  | [] => true
+  | (e, o) :: rest =>
+      let r := ev_step server_cache_conf c e in
+      eqb_option eqb_bytes (snd r) o && replay_ev (fst r) rest
   end.
 
 Definition case_ok (c : case) : bool :=
   match c with
-  | CHist finds names acfs g steps => replay finds names acfs g empty_index [] steps
+  | CHist finds names acfs g env gb0 steps => replay finds names acfs g env empty_index [] gb0 steps
+  | CHand evs => replay_ev [] evs
   end.
 
 Definition mismatches := Base.Run.mismatches case_ok.
 
 (** What the model computes after every step. *)
-Fixpoint explain_steps finds names acfs g (ix : index) tbl (steps : list (hstep * obs)) : list obs :=
+Fixpoint explain_steps finds names acfs g env (ix : index) tbl gb (steps : list (hstep * obs * aobs))
+    : list (obs * list (option settings)) :=
   match steps with
   | [] => []
-  | (h, _) :: rest =>
-      match hstep_run ix tbl h with
-      | (ix', tbl', e) =>
-          model_obs finds names acfs g ix' tbl' e :: explain_steps finds names acfs g ix' tbl' rest
+  | (h, _, (t, offs, _)) :: rest =>
+      match hstep_run (cfg_of env) ix tbl gb h with
+      | (ix', tbl', gb', e) =>
+          (model_obs finds names acfs g ix' tbl' e, model_aobs acfs env ix' tbl' gb' t offs)
+            :: explain_steps finds names acfs g env ix' tbl' gb' rest
       end
+  end.
+
+Fixpoint explain_ev (c : cache) (evs : list (ev * option bytes)) : list (option bytes) :=
+  match evs with
+  | [] => []
+  | (e, _) :: rest => let r := ev_step server_cache_conf c e in snd r :: explain_ev (fst r) rest
   end.
 
 Definition explain (c : case) :=
   match c with
-  | CHist finds names acfs g steps => explain_steps finds names acfs g empty_index [] steps
+  | CHist finds names acfs g env gb0 steps =>
+      (explain_steps finds names acfs g env empty_index [] gb0 steps, @nil (option bytes))
+  | CHand evs => ([], explain_ev [] evs)
   end.
